@@ -328,6 +328,23 @@ def main(run):
             agree += 1
             if not np.allclose(a, b, rtol=5e-3, atol=1e-7 * float(np.abs(a).max())):
                 run.add(Finding("C15:single:%s" % name, "%s (%s, %s): float32 build %s vs float64 %s" % (name, dim, sorted(pars), b, a), dict(model=name, dim=dim, pars=pars)))
+    # models that lean on the special-function library (which has separate float and double code paths), with arguments
+    # of either sign
+    for name, pars in [("pringle", dict(alpha=-0.001, beta=-0.02)), ("pringle", dict(alpha=0.002, beta=0.03))] + \
+            ([("flexible_cylinder", {}), ("barbell", {}), ("pearl_necklace", {}), ("stacked_disks", {})] if thorough else []):
+        if name not in safe:
+            continue
+        m64, m32 = sas.load(name, "double"), sas.load(name, "single")
+        q = [np.array([0.01, 0.05, 0.1])]
+        k64 = m64.make_kernel(q); k32 = m32.make_kernel(q)
+        try:
+            a = np.asarray(call_kernel(k64, dict(pars), cutoff=1e-5)); b = np.asarray(call_kernel(k32, dict(pars), cutoff=1e-5))
+        finally:
+            k64.release(); k32.release()
+        agree += 1
+        stats["special_function_models"] = stats.get("special_function_models", 0) + 1
+        if not np.allclose(a, b, rtol=5e-3, atol=1e-7 * float(np.abs(a).max())):
+            run.add(Finding("C15:single:%s" % name, "%s (1d, %s): float32 build %s vs float64 %s" % (name, pars, b, a), dict(model=name, dim="1d", pars=pars)))
     # mixtures whose parts run at different precisions: a pure-Python part (always float64) next to a compiled part
     # built in single precision, in either order, as sum and as product; and P@S
     for name in ["power_law+sphere", "sphere+power_law", "power_law*sphere", "sphere@hardsphere"] + (["guinier+cylinder", "cylinder+power_law+sphere", "power_law+sphere@hardsphere"] if thorough else []):
